@@ -199,6 +199,17 @@ def encoder_admissibility(chk):
             why = "frame not RFC-valid per the model"
         elif r.get("rewritten") not in (None, "", "!") and r.get("rewritten") != c["bytes"]:
             why = "model re-serialisation differs from the encoder's bytes"
+        if why is None:
+            # the decision rule of encode_subframe (Coq: EncChoice.enc_subframe_rule / C19_subframe_bound):
+            # a subframe that is not VERBATIM (nor CONSTANT) is strictly smaller than n * effective bps,
+            # and every subframe is at most 8 + n * bps bits
+            n_s = r.get("bs", 0)
+            for k, sfi in enumerate(r.get("subs", [])):
+                if sfi["bits"] > 8 + n_s * sfi["bps"]:
+                    why = "subframe %d has %d bits > 8 + %d*%d (C19_subframe_bound)" % (k, sfi["bits"], n_s, sfi["bps"])
+                elif sfi["kind"] in ("fixed", "lpc") and not sfi["bits"] < n_s * (sfi["bps"] - sfi["wasted"]):
+                    why = "subframe %d (%s, %d bits) is not smaller than its verbatim payload %d*%d: the verbatim fallback rule of encode_subframe is violated" % (
+                        k, sfi["kind"], sfi["bits"], n_s, sfi["bps"] - sfi["wasted"])
         if why:
             bad += 1
             if bad <= 3:
